@@ -2,6 +2,7 @@ package mg
 
 import (
 	"context"
+	"encoding/hex"
 	"encoding/json"
 	"fmt"
 	"reflect"
@@ -35,7 +36,7 @@ func F(target interface{}, args ...interface{}) Fn {
 	if err != nil {
 		panic(err)
 	}
-	id, err := json.Marshal(args)
+	id, err := json.Marshal(idArgs(args))
 	if err != nil {
 		panic(fmt.Errorf("can't convert args into a mage-compatible id for mg.Deps: %s", err))
 	}
@@ -75,6 +76,21 @@ func F(target interface{}, args ...interface{}) Fn {
 			return nil
 		},
 	}
+}
+
+// idArgs returns args with every string hex encoded. json.Marshal replaces
+// invalid UTF-8 in strings by U+FFFD, which would give different argument
+// values the same ID.
+func idArgs(args []interface{}) []interface{} {
+	out := make([]interface{}, len(args))
+	for i, a := range args {
+		if s, ok := a.(string); ok {
+			out[i] = hex.EncodeToString([]byte(s))
+		} else {
+			out[i] = a
+		}
+	}
+	return out
 }
 
 type fn struct {
